@@ -31,7 +31,7 @@ def sentinel_guards(b, sentinel_pred):
     return out
 
 
-def run(facts, rep, ctx):
+def sb7(facts, rep):
     rule = 'SB-7'
     rep.rule(rule, 'writer/reader agreement of the sampled suffix array: sample() stores row i iff i % rate == 0 and get() '
                    'looks a row up in `sample[pos / s]` iff pos % s == 0 with s the stored rate; rows that are not sampled and '
@@ -134,3 +134,64 @@ def run(facts, rep, ctx):
         rep.ok(rule, key, r.loc(es[0][0]), 'index < self.len()')
     else:
         rep.bad(rule, key, '%s:%s' % (r.file, r.line), 'no `index < len` guard')
+
+
+def nf1(facts, rep):
+    rule = 'NF-1'
+    rep.rule(rule, 'no float-rounded counts: in SuffixArray::sample a value that went through an int -> float -> int round trip '
+                   '(f32 has 24 bits of mantissa) may only be used as a capacity hint (Vec::with_capacity / reserve), never as a '
+                   'loop bound, length or index - otherwise arrays beyond 2^24 rows are sampled one entry short')
+    w = facts.body(SA + '::SuffixArray::sample')
+    if w is None:
+        rep.missing(rule, SA + '::SuffixArray::sample', 'not found')
+        return
+    from .eng_ri import uses_of_locals
+    tainted = set()
+    for fb in [w] + facts.closures_of(w.path):
+        rep.analysed_body(fb)
+    # seeds: locals assigned from a FloatToInt cast
+    for bb in w.reachable(0):
+        for s in w.stmts(bb):
+            if s['k'] == 'assign' and s['r']['k'] == 'cast' and s['r']['ck'] == 'FloatToInt' and 'pj' not in s['p']:
+                tainted.add(s['p']['l'])
+    uses = uses_of_locals(w)
+    bad = []
+    work = list(tainted)
+    seen = set()
+    n = len(tainted)
+    while work:
+        l = work.pop()
+        if l in seen:
+            continue
+        seen.add(l)
+        for (kind, ubb, x) in uses.get(l, []):
+            if kind == 'stmt':
+                s = w.stmts(ubb)[x]
+                if s['k'] == 'assign' and 'pj' not in s['p']:
+                    work.append(s['p']['l'])
+                else:
+                    bad.append((ubb, 'stored / used in `%s`' % s.get('d', '')[:60]))
+            else:
+                t = w.term(ubb)
+                if t['k'] == 'call' and call_info(t):
+                    nm = call_info(t)['fn'].rsplit('::', 1)[-1]
+                    if nm in ('with_capacity', 'reserve', 'reserve_exact'):
+                        continue
+                    bad.append((ubb, 'passed to %s' % call_info(t)['fn']))
+                elif t['k'] in ('assert', 'switch'):
+                    bad.append((ubb, 'used in a bound / comparison'))
+    key = 'sample|float-rounded-count-only-as-capacity'
+    if bad:
+        rep.bad(rule, key, w.loc(bad[0][0]), 'a count computed through f32 is %s: for more than 2^24 rows it is off by one' % bad[0][1])
+    else:
+        rep.ok(rule, key, '%s:%s' % (w.file, w.line), '%d float-derived value(s), used only as capacity hints' % n)
+
+
+def run(facts, rep, ctx):
+    sb7(facts, rep)
+    nf1(facts, rep)
+    # the LCP array is a SmallInts<i8, isize>: its small/big threshold must agree between writer and reader (see C18/SB-5)
+    from .c18 import smallints_thresholds
+    rep.rule('SB-5s', 'LCP storage: SmallInts::{push,set,real_value} decide small-vs-big with the same strict comparison '
+                      'against S::max_value() (an LCP equal to the small maximum must live in the overflow map)')
+    smallints_thresholds(facts, rep, 'SB-5s')
